@@ -14,6 +14,7 @@ import (
 	"path/filepath"
 	"runtime"
 	"runtime/debug"
+	"runtime/pprof"
 	"sort"
 	"strconv"
 	"strings"
@@ -296,7 +297,7 @@ type hangNote struct {
 	LimitS  int    `json:"limit_s"`
 }
 
-func hangLimit() time.Duration { return time.Duration(envInt("VERIF_HANG_S", 20)) * time.Second }
+func hangLimit() time.Duration { return time.Duration(envInt("VERIF_HANG_S", 60)) * time.Second }
 
 // armWatchdog: seam-free infinite loops inside the library cannot be seen by
 // step counting, so a generous wall-clock limit per run (normal runs take
@@ -374,6 +375,12 @@ func cmdWorker(args []string) int {
 	if spec == nil {
 		fmt.Fprintln(os.Stderr, "unknown property", *prop)
 		return 2
+	}
+	if pf := os.Getenv("VERIF_CPUPROFILE"); pf != "" {
+		if f, err := os.Create(pf); err == nil {
+			pprof.StartCPUProfile(f)
+			defer pprof.StopCPUProfile()
+		}
 	}
 	res := workerLoop(spec, *prop, *tier, *seed, *w, *first, *runs)
 	b, _ := json.Marshal(res)
